@@ -33,7 +33,8 @@ contract(f"{B}:get_bhe_object",
 
 # abstract callees of BaseGHE.__init__
 contract(f"{B}:SingleUTube.to_single", dict(self=BheObj()), returns=BheObj(), notes="abstract here; verified for C15")
-contract("ghedesigner.radial_numerical_borehole:RadialNumericalBH.__init__", dict(self=ObjOf("rn"), single_u_tube=BheObj()), returns=NoneT(), notes="abstract here; C10")
+contract("ghedesigner.radial_numerical_borehole:RadialNumericalBH.__init__", dict(self=ObjOf("rn"), single_u_tube=BheObj()), returns=NoneT(), notes="abstract here; C10",
+         name="ghedesigner.radial_numerical_borehole:RadialNumericalBH.__init__#caller").applies = lambda env: True
 contract("ghedesigner.radial_numerical_borehole:RadialNumericalBH.calc_sts_g_functions", dict(self=ObjOf("rn"), single_u_tube=BheObj()), returns=NoneT(), notes="abstract here; C10")
 
 contract(f"{G}:BaseGHE.__init__",
